@@ -35,25 +35,6 @@ def _det(a):
     return bool(a) and a.get("d", 0) != 0
 
 
-def p_n8(case, rec, exp):
-    """fill: value of the wrong type and a detaching start/end: TypeError in both readings, the detach happened (goja) or not (spec)"""
-    o, rs, ri = _at(case, exp, ("fill",))
-    if not o or rs != "RErr TypeError" or ri != "RErr TypeError":
-        return False
-    v = o.get("val") or {}
-    return bool(v.get("big")) != (o.get("k", 0) >= 9) and (_det(o.get("a1")) or _det(o.get("a2")))
-
-
-def p_n9(case, rec, exp):
-    """V[key] = value with a non-index numeric key (or an integer beyond 2^53) and a value of the wrong type"""
-    o, rs, ri = _at(case, exp, ("set",))
-    if not o or rs != "RErr TypeError" or ri != "RUndef":
-        return False
-    v = o.get("val") or {}
-    nonidx = bool(o.get("ks")) or (o.get("key") is not None and abs(int(o["key"])) > 2 ** 53)
-    return nonidx and bool(v.get("big")) != (o.get("k", 0) >= 9)
-
-
 CFG = {
     "id": "C17",
     "harness": "c17",
@@ -75,16 +56,16 @@ CFG = {
              "same 121 pairs first on every run; views at "
              "non-zero byteOffset, copyWithin, fill, slice, subarray (clamping), reverse, sort, DataView get*/set* of every kind "
              "with littleEndian true/false/omitted, ArrayBuffer.prototype.slice, Go-side writes through the owner's []byte and "
-             "Go-side Detach(), arguments whose valueOf detaches a buffer; values from boundary classes (+-0, NaN, +-Inf, 2^31, "
+             "Go-side Detach(), includes/indexOf/lastIndexOf (search values taken from the elements, boundary classes, NaN, -0, "
+             "undefined, wrong type; detaching fromIndex), arguments whose valueOf detaches a buffer; values from boundary classes (+-0, NaN, +-Inf, 2^31, "
              "2^32+-1, 2^53, 2^63+-2^11, clamping ties, binary32 halfway cases, BigInts beyond 64 bits). After every step: result "
              "(numbers as bit patterns), error class, canaries, the set of detached buffers and a 32-bit hash of all buffer memory; "
              "at the end a 61-bit hash. A case fails if the implementation differs from S at any step, or if any range touched by the "
              "model's own MI or S reading on that history is outside its view or on a detached buffer. Non-trivial = at least 5 "
-             "executed steps or a detach; distinct = by hash of the case. The bulk of the cases stays outside the input regions of the "
-             "two OPEN findings (C17-N8, C17-N9); those are covered by corpus/C17 and by up to 4 unconstrained ('wild') cases per run."),
+             "executed steps or a detach; distinct = by hash of the case. No input region is avoided (C17 has no open finding); the only "
+             "exclusion is a NaN moved between the two float kinds by set(typedArray) (implementation-defined payload)."),
     "theorem_names": ["touched_in_view", "allowed_in_buffer", "inv_init", "inv_step", "touched_in_view_history",
-                      "bytes_eq_spec", "int_conv_eq", "fill_order_refuted", "nonindex_key_refuted",
-                      "raw_roundtrip", "raw_roundtrip_bits", "bits64_roundtrip", "bits32_roundtrip", "of_bits_wf",
+                      "bytes_eq_spec", "int_conv_eq", "raw_roundtrip", "raw_roundtrip_bits", "bits64_roundtrip", "bits32_roundtrip", "of_bits_wf",
                       "le_codec", "clamp_range", "clamp_spec"],
     "allowed_axioms": [],
     "trusted_base": [
@@ -98,21 +79,18 @@ CFG = {
         "the bit pattern of a stored NaN (implementation-defined in ECMA-262) is pinned to goja's",
         "the implementation is tied to the model only on the generated histories (correspondence), not by proof",
     ],
-    "predicates": {
-        "C17.fill_coercion_order": p_n8,
-        "C17.nonindex_numeric_key_type_check": p_n9,
-    },
+    "predicates": {},
     "manifest": {
         "text": ("proof: a byte-list model of ArrayBuffers (with a detached flag; a detached buffer keeps its bytes, they are the Go "
                  "owner's memory), typed-array views of the 11 element kinds and DataViews, in two readings (S = ECMA-262, I = goja's "
-                 "arithmetic after the round-1 repairs); every one of 18 operations (constructors, element get/set, set(array|typed "
-                 "array), copyWithin, fill, slice, subarray, reverse, sort, DataView get/set, ArrayBuffer.slice, Go write, Go detach, "
-                 "length getters) returns the byte ranges it touched with the liveness of the buffer. Proved for all inputs, no axioms: "
+                 "arithmetic after the round-1 repairs); every one of 21 operations (constructors, element get/set, set(array|typed "
+                 "array), copyWithin, fill, slice, subarray, reverse, sort, includes/indexOf/lastIndexOf, DataView get/set, "
+                 "ArrayBuffer.slice, Go write, Go detach, length getters) returns the byte ranges it touched with the liveness of the buffer. Proved for all inputs, no axioms: "
                  "touched_in_view (both readings: under the view invariant every touched range is on a live buffer and inside the view / "
                  "DataView / receiver / freshly created buffer, for every argument incl. detaching valueOf), the invariant holds "
                  "initially and is preserved by every operation (so the theorem applies along every history), bytes_eq_spec (I = S on "
-                 "state, result and touched ranges under an explicit guard that excludes the two open findings and set(typedArray) "
-                 "between different kinds on the same buffer), int_conv_eq (goja's integer conversions are modular for every float), "
+                 "state, result and touched ranges under an explicit guard that excludes only set(typedArray) between different kinds "
+                 "on the same buffer, where the order of the touches differs), int_conv_eq (goja's integer conversions are modular for every float), "
                  "raw_roundtrip (RawBytesToNumeric o NumericToRawBytes = ToType for all 11 kinds, both byte orders; floats through the "
                  "proved to_bits/of_bits round trip on SpecFloat), clamp_spec (ToUint8Clamp in 0..255, nearest, ties to even). The model "
                  "is tied to /repo on every run by 2400 (quick) / 150000 (thorough) generated histories executed on buffers living in "
